@@ -112,17 +112,22 @@ func init() {
 			"a slice returned by Batch.Get is the caller's like one returned by DB.Get (the statement says Get)",
 		},
 		Tasks: func(tier string) []Task {
-			d, b := 4, 2
 			if tier == "thorough" {
-				d, b = 5, 3
+				// (d5 b3 - 444 k sequences per configuration - no longer fits the 25 minutes since the alphabet grew)
+				return seqTasks("C15", []seqLevel{
+					{Name: "d5b2", Cfgs: c15Cfgs(), Keys: keysAB, Alpha: c15Alphabet, Depth: 5, Dev: 2, Run: runC15},
+					{Name: "d4b3", Cfgs: c15Cfgs(), Keys: keysAB, Alpha: c15Alphabet, Depth: 4, Dev: 3, Run: runC15},
+				})
 			}
+			d, b := 4, 2
 			return seqTasks("C15", []seqLevel{{Name: fmt.Sprintf("d%db%d", d, b), Cfgs: c15Cfgs(), Keys: keysAB, Alpha: c15Alphabet, Depth: d, Dev: b, Run: runC15}})
 		},
 		Bounds: func(tier string) map[string]any {
-			d, b := 4, 2
 			if tier == "thorough" {
-				d, b = 5, 3
+				return map[string]any{"levels": "depth 5 deviation bound 2; depth 4 deviation bound 3", "configs": len(c15Cfgs()),
+					"sequences_per_config": countSeq(c15Alphabet(defaultCfg), 5, 2) + countSeq(c15Alphabet(defaultCfg), 4, 3)}
 			}
+			d, b := 4, 2
 			return map[string]any{"depth": d, "deviation_bound": b, "configs": len(c15Cfgs()), "sequences_per_config": countSeq(c15Alphabet(defaultCfg), d, b)}
 		},
 		Replay: func(raw json.RawMessage) { seqReplayMain(raw, runC15) },
